@@ -18,6 +18,7 @@ import (
 	"verifharness/trace"
 
 	"github.com/aperturerobotics/util/routine"
+	ubackoff "github.com/aperturerobotics/util/backoff"
 	cbackoff "github.com/cenkalti/backoff/v4"
 )
 
@@ -41,6 +42,8 @@ type rtOp struct {
 type rtScenario struct {
 	Variant    string   `json:"variant"` // plain | state
 	Retry      bool     `json:"retry"`
+	BoConf     string   `json:"boconf"`  // "": scripted backoff (WithBackoff); "const" | "expo": WithRetry(backoff.Backoff config meaning 10 ms, forever)
+	BigTick    bool     `json:"bigtick"` // the environment may once advance the clock by 20 minutes
 	Seq        bool     `json:"seq"`   // sequential histories: settle the library after every move (C14)
 	Burst      bool     `json:"burst"` // M2: clients run their whole programs freely in parallel, then exact quiescence
 	NCtx       int      `json:"nctx"`  // number of distinct root contexts
@@ -112,6 +115,8 @@ type rtDriver struct {
 	lastQ    string
 	lastC    string
 	ticks    int
+	flush    int // end-of-run ticks left (see moves)
+	bigDone  bool
 	rootLeft int
 }
 
@@ -141,6 +146,9 @@ func genRoutine(x *sched.Exec) rtScenario {
 		sc.Ticks = 2 + r.Intn(4)
 		if r.Intn(3) == 0 {
 			sc.BoStop = 1 + r.Intn(2)
+		} else if r.Intn(2) == 0 {
+			sc.BoConf = []string{"const", "expo"}[r.Intn(2)]
+			sc.BigTick = r.Intn(3) != 0
 		}
 	}
 	sc.RootCancel = r.Intn(4) == 0
@@ -415,6 +423,10 @@ func (d *rtDriver) Run(x *sched.Exec, raw json.RawMessage) json.RawMessage {
 	} else {
 		d.sc = genRoutine(x)
 	}
+	if x.LogSteps {
+		// X-level trace validation: Routine.tla models the scripted backoff and bounded 7 ms ticks only
+		d.sc.BoConf, d.sc.BigTick = "", false
+	}
 	sc := d.sc
 	out, _ := json.Marshal(sc)
 	d.ctxs, d.cancels, d.ctxCanc = map[int]context.Context{}, map[int]context.CancelFunc{}, map[int]bool{}
@@ -428,9 +440,19 @@ func (d *rtDriver) Run(x *sched.Exec, raw json.RawMessage) json.RawMessage {
 		routine.WithExitCb(func(err error) { x.Log(trace.E{"ev": "exitcb", "k": 2, "inst": d.instOfSelf(), "err": errName(err)}) }),
 	}
 	if sc.Retry {
-		opts = append(opts, routine.WithBackoff(&rtBackoff{d: d}))
+		switch sc.BoConf {
+		case "const":
+			opts = append(opts, routine.WithRetry(&ubackoff.Backoff{BackoffKind: ubackoff.BackoffKind_BackoffKind_CONSTANT,
+				Constant: &ubackoff.Constant{Interval: 10}}))
+		case "expo":
+			// initial = max = 10 ms, no randomization, no max elapsed time ("may be empty": never gives up)
+			opts = append(opts, routine.WithRetry(&ubackoff.Backoff{BackoffKind: ubackoff.BackoffKind_BackoffKind_EXPONENTIAL,
+				Exponential: &ubackoff.Exponential{InitialInterval: 10, Multiplier: 1, MaxInterval: 10}}))
+		default:
+			opts = append(opts, routine.WithBackoff(&rtBackoff{d: d}))
+		}
 	}
-	x.Log(trace.E{"ev": "config", "variant": sc.Variant, "retry": sc.Retry, "seq": sc.Seq, "burst": sc.Burst})
+	x.Log(trace.E{"ev": "config", "variant": sc.Variant, "retry": sc.Retry, "seq": sc.Seq, "burst": sc.Burst, "boconf": sc.BoConf})
 	if sc.Variant == "state" {
 		d.sr = routine.NewStateRoutineContainer[int](func(a, b int) bool { return a == b }, opts...)
 		d.sr.SetStateRoutine(func(ctx context.Context, st int) error { return d.body(-1, st)(ctx) })
@@ -445,6 +467,7 @@ func (d *rtDriver) Run(x *sched.Exec, raw json.RawMessage) json.RawMessage {
 		d.cl = append(d.cl, c)
 	}
 	d.ticks = sc.Ticks
+	d.flush = 3
 	d.rootLeft = 1
 
 	libBusy := func() bool { return len(x.ParkedActors()) != 0 }
@@ -501,6 +524,23 @@ func (d *rtDriver) Run(x *sched.Exec, raw json.RawMessage) json.RawMessage {
 				d.ticks--
 				x.Log(trace.E{"ev": "tick", "d": 7})
 				x.Tick(7 * time.Millisecond) // 10 ms backoff unit: deadlines are never hit exactly
+			}})
+		}
+		if sc.BigTick && !d.bigDone && !libBusy() {
+			ms = append(ms, sched.Move{Label: "bigtick", Do: func() {
+				d.bigDone = true
+				x.Log(trace.E{"ev": "tick", "d": 1200000})
+				x.Tick(20 * time.Minute)
+			}})
+		}
+		// Nothing left to do: let virtual time run past every backoff deadline a few more times, so that
+		// a timer the library should have stopped (or one it should have armed) shows in the trace.
+		// Not under -logsteps: the X specs bound the number of ticks.
+		if len(ms) == 0 && sc.Retry && d.flush > 0 && !x.LogSteps {
+			ms = append(ms, sched.Move{Label: "tick", Do: func() {
+				d.flush--
+				x.Log(trace.E{"ev": "tick", "d": 7})
+				x.Tick(7 * time.Millisecond)
 			}})
 		}
 		return ms
